@@ -1,7 +1,7 @@
 import XC.Model.C19
 namespace XC.C19
 
-/-- `key pw=<hex> salt=<hex> rep=<n> rounds=<int> keylen=<int>` (salt = the hex pattern repeated `rep` times)
+/-- `key pw=<hex> salt=<hex> rep=<n> rounds=<int> keylen=<int> [expect=<hex>]` (salt = the hex pattern repeated `rep` times)
     → `ok <hex>` | `err` | `panic` -/
 def handle (line : String) : String :=
   let o := parseOp line
@@ -10,7 +10,10 @@ def handle (line : String) : String :=
   | some pw, some salt, some rep, some rounds, some kl =>
     let s := (List.replicate rep salt).flatten
     match key pw s rounds kl with
-    | .ok k => "ok " ++ toHex k
+    | .ok k =>
+      match o.get? "expect" with
+      | none => "ok " ++ toHex k
+      | some e => "ok " ++ toHex k ++ (if toHex k == e then " kat=ok" else " kat=MODEL-MISMATCH")
     | .err => "err"
     | .panic => "panic"
   | _, _, _, _, _ => "bad-op"
